@@ -30,7 +30,7 @@ theorem cpcCount_eq (p l r : ℕ) (b : Basis K) (hp : b.order = p) (hlr : l ≤ 
     has all the conclusions of `C04_object`; `bisect_left(x)` is unchanged and `bisect_right(x)` has
     grown by `k`; and the call equals `cpcPick o o' dir x`. -/
 theorem constParCurve_core (o : Obj K) (direction : Int ⊕ String) (dir : ℕ)
-    (hdirn : checkDirection direction 2 = .ok dir) (hdir : dir < o.bases.size)
+    (hdirn : Sections.checkDirection direction 2 = .ok dir) (hdir : dir < o.bases.size)
     (hax : dir < o.cps.shape.length) (hv : (o.basis dir).Valid)
     (hper : (o.basis dir).periodic = -1)
     (hshape : o.cps.shape.getD dir 0 = (o.basis dir).numFunctions) (tol x : K) (htol : 0 < tol)
